@@ -49,6 +49,7 @@ def run(chk, F):
                        "would then read a name differently from evaluation)" % (k, dict(v), dict(base)))
     chk.guard("exact-stage-agreement", "Registry", lambda: exact_stage(chk, F))
     chk.guard("exact-stage-agreement", "closes_alias_cycle", lambda: cycle_walk_reading(chk, F))
+    chk.guard("exact-stage-agreement", "canonicalize_exact", lambda: exact_means_exact(chk, F))
     chk.guard("context-lookup", "Context::lookup", lambda: context_lookup(chk, F))
     chk.guard("determinism", "registry", lambda: determinism(chk, F))
     import shared_rules
@@ -303,6 +304,31 @@ def determinism(chk, F):
     chk.decide(not bad, "determinism", "rink_core::lookup+canonicalize", "no-hash-clock-env", "",
                "no hash container, clock, environment, thread or randomness call among the %d functions reachable from lookup/canonicalize" % len(reach),
                "non-deterministic source reachable from name resolution: %s" % bad[:3])
+
+
+def exact_means_exact(chk, F):
+    """The other inclusion: a name that lookup_exact answers (it is in `units` or `base_units`) must be an exact name for
+    canonicalize_exact too.  If canonicalize_exact says None for such a name, canonicalize goes on to the prefix + unit and plural
+    readings of an *exactly defined* name: the long prefixes that can stand alone are units without a recorded definition, and
+    with a user unit `eta`, `5e15 -> peta` is answered in `picoeta`.  Rule: in canonicalize_exact every `None` return lies behind
+    the failing edge of `units.contains_key(name)` (base units return earlier)."""
+    cn = F.find(CORE, "loader::registry::Registry::canonicalize_exact")
+    fk = "rink_core::loader::registry::Registry::canonicalize_exact"
+    nones = [i for i, j, st in cn.stmts() if st["k"] == "assign" and st["place"]["l"] == 0 and not st["place"]["p"] and st.get("rv", {}).get("k") == "agg"
+             and str(st["rv"].get("adt", "")).endswith("option::Option") and st["rv"].get("variant") == "None"]
+    if not nones:
+        raise AnchorLost("canonicalize_exact has no None return")
+
+    def acc(kind, ap, info):
+        r = ap[0]
+        if kind == "bool" and r[0] == "call" and r[1].endswith("::contains_key") and r[2] and ap_str(r[2][0]).endswith(".units"):
+            return {"false"}
+        return None
+    res, matched = k2.cut_gate(cn, nones, acc)
+    chk.decide(bool(matched) and all(res.values()), "exact-stage-agreement", fk, "exactly-defined-names-stay-exact", cn.where(nones[-1]),
+               "canonicalize_exact answers None only for names that are not in `units`",
+               "canonicalize_exact can answer None for a name that is in `units` (a unit without a recorded definition, like the long prefix `peta`): "
+               "canonicalize then reads it as a prefix and a unit - with a user unit `eta`, `5e15 -> peta` is answered `5 picoeta`")
 
 
 def cycle_walk_reading(chk, F):
